@@ -35,7 +35,7 @@ Definition step_spec (g : cfg) (p : snap) (l : label) (o : list out) (sn : snap)
   ((g_limit g =? 0) || (sn_held sn <=? g_limit g)) &&
   (if sn_closed p then outs_eqb o [] else
    match l with
-   | LSub n len sp sc =>
+   | LSub n len rt sc =>
        if (0 <? g_maxlen g) && (g_maxlen g <? len)
        then outs_eqb o [OReply 107] && (sn_held sn =? sn_held p)
        else if (0 <? g_limit g) && (g_limit g <=? sn_held p)
